@@ -137,7 +137,10 @@ class Net:
                 elif a.get("yield0"):
                     yield env.timeout(0)
                 n += 1
-                p = self.make_packet(a["flow"], a["size"], a.get("pid", n), src=a.get("src", src),
+                fl = a["flow"]
+                if isinstance(fl, int) and fl > 256:
+                    fl = int(str(fl))                    # a fresh int object per packet (equal, not identical)
+                p = self.make_packet(fl, a["size"], a.get("pid", n), src=a.get("src", src),
                                      payload=a.get("payload"))
                 if a.get("age"):
                     p.time = env.now - a["age"]          # created upstream some time ago
